@@ -7,3 +7,49 @@ import "shipverif/internal/core"
 var Checks = map[string]func(*core.Program, *core.Report){}
 
 func register(id string, f func(*core.Program, *core.Report)) { Checks[id] = f }
+
+// ---- sharing rules between properties ----------------------------------------------------------------------
+//
+// Several properties have clauses in common (the SKI a trust decision is about must be the peer's proven one:
+// C01, C02, C10; a dead transport must be noticed: C05, C11, C13; ...). The rule that decides such a clause is
+// written once, in the check of the property it was first needed for; the checks of the other properties import
+// its instances under a rule id of their own, so that each property's check decides all of its own clauses.
+
+var subReports = map[*core.Program]map[string]*core.Report{}
+
+// importRules runs the check of srcProp into a scratch report (cached per program) and records the instances of
+// the rules named in mapping (source rule id -> rule id in r) in r. keep, when non-nil, filters by instance key.
+func importRules(p *core.Program, r *core.Report, srcProp string, mapping map[string]string, keep func(key string) bool) {
+	if subReports[p] == nil {
+		subReports[p] = map[string]*core.Report{}
+	}
+	sub := subReports[p][srcProp]
+	if sub == nil {
+		sub = core.NewReport(srcProp, r.Tier)
+		subReports[p][srcProp] = sub // set first: guards against import cycles
+		if f := Checks[srcProp]; f != nil {
+			f(p, sub)
+		}
+	}
+	n := map[string]int{}
+	for _, in := range sub.Instances {
+		dst, ok := mapping[in.Rule]
+		if !ok {
+			continue
+		}
+		key := in.Key
+		if len(key) > len(in.Rule) && key[:len(in.Rule)] == in.Rule {
+			key = key[len(in.Rule)+1:]
+		}
+		if keep != nil && !keep(key) {
+			continue
+		}
+		n[dst]++
+		r.Add(dst, key, in.Pos, in.OK, in.Msg, in.Path...)
+	}
+	for _, dst := range mapping {
+		if n[dst] == 0 {
+			r.Fail(dst, "imported rule matched nothing", "", "the rule shared with "+srcProp+" produced no instance: the mechanism is no longer recognisable")
+		}
+	}
+}
